@@ -283,7 +283,7 @@ const prelude = `<?php
 function snap($x) { return json_encode($x) . " ~ " . str_replace("\n", "", var_export($x, true)); }
 class H { public $arr = []; public $n = 1; function getArr() { return $this->arr; } function wrap() { return [$this->arr]; } }
 class HC { public $arr = []; function __construct($x) { $this->arr = $x; } }
-`
+` + containerPrelude
 
 type tcase struct {
 	id       int
@@ -293,22 +293,36 @@ type tcase struct {
 	shape    *node
 	seeded   bool
 	shapeLit string
+	src      *source // nil: the literal itself
+}
+
+func (t *tcase) routeName() string {
+	if t.src != nil && t.src.name != "" {
+		return t.src.name + ">" + t.route.name
+	}
+	return t.route.name
 }
 
 // key is the cell of the property's matrix the case belongs to: route/side/mutation/path.
 // No spaces: KNOWN_FINDINGS.txt is split on white space.
 func (t *tcase) key() string {
-	return t.route.name + "/" + t.side + "/" + t.mut.name + "/" + t.mut.path
+	return t.routeName() + "/" + t.side + "/" + t.mut.name + "/" + t.mut.path
 }
 
 func (t *tcase) describe() string {
-	return fmt.Sprintf("route=%s written-through=%s mutation=%s path=%s shape=%s write=`%s`", t.route.name, t.side, t.mut.name, t.mut.path, t.shapeLit, t.mut.code("L"))
+	return fmt.Sprintf("route=%s written-through=%s mutation=%s path=%s shape=%s write=`%s`", t.routeName(), t.side, t.mut.name, t.mut.path, t.shapeLit, t.mut.code("L"))
 }
 
 // render returns the definitions and the guarded invocation of one case.
 func (t *tcase) render() string {
 	c := &caseCtx{id: t.id, lit: t.shapeLit, side: t.side, mut: t.mut.code}
+	pre := ""
+	if t.src != nil && t.src.name != "" {
+		pre = t.src.pre(t.shapeLit) + "\n  "
+		c.lit = t.src.expr
+	}
 	defs, body := t.route.render(c)
+	body = pre + body
 	var sb strings.Builder
 	sb.WriteString(defs)
 	fmt.Fprintf(&sb, "function c%d() {\n  %s\n}\n", t.id, body)
